@@ -167,9 +167,12 @@ class EventletWorker(AsyncWorker):
             acceptors.append(acceptor)
             eventlet.sleep(0.0)
 
+        # never sleep longer than the heartbeat interval the arbiter gave us
+        wait = min(1.0, self.timeout) if self.timeout else 1.0
+
         while self.alive:
             self.notify()
-            eventlet.sleep(1.0)
+            eventlet.sleep(wait)
 
         self.notify()
         t = None
